@@ -102,7 +102,10 @@ Definition mon_c05 (sc : scen) : list viol :=
    1405 a tower answered with a signature of another key and is not flagged (proof + misbehaving) at the next
    settle point (detail 0), or a tower whose proof is stored is not shown misbehaving at a settle point, e.g. after a
    restart (detail 1); 1406 a request reached a tower after its misbehaviour proof was stored (also across restarts);
-   1407 the plugin did not answer (crashed / wedged handler).
+   1407 the plugin did not answer (crashed / wedged handler);
+   1408 "stores the proof": a stored misbehaviour proof (tower, locator, recovered_id) is not backed by the offending receipt - the
+   receipt stored for (tower, locator) must recover to recovered_id, a key other than the tower's (signature class 2 = the other
+   key of the fake tower, whose id is 100 + tower; the harness recomputes the recovery with teos_common on the stored strings).
    A registration reply of class 7 (a receipt the tower signed correctly, strictly extending, for ANOTHER user) is not a
    good-signature class: storing it is 1401 / 1403 / 1404. *)
 Definition rr_rows (d : db) (t : N) : list row :=
@@ -194,8 +197,17 @@ Definition c14_step (last : N) (m : m14) (ist : N * cstep) : m14 :=
                                      then [(1405, i, t, 1)] else []) (db_towers d)
                 else [] in
   let proven1 := fold_left (fun acc t => if has_proof d t then set_add t acc else acc) (db_towers d) proven0 in
+  (* the proof row and its receipt are written in one transaction, and the tables are read in one: every observation counts *)
+  let v_proof := flat_map (fun r =>
+       let t := col r C_misbehaving_proofs_tower_id in
+       let l := col r C_misbehaving_proofs_locator in
+       let rc := col r C_misbehaving_proofs_recovered_id in
+       match find_pk CS d T_appointment_receipts [l; t] with
+       | Some rr => if N.eqb (col rr C_appointment_receipts_tower_signature) 2 && N.eqb rc (100 + t) then [] else [(1408, i, t, l)]
+       | None => [(1408, i, t, l)]
+       end) (tbl d T_misbehaving_proofs) in
   {| m4_prev := o; m4_up := up; m4_wk := if settle then [] else wk1; m4_proven := proven1;
-     m4_out := m4_out m ++ v_alive ++ v_sig ++ v_new ++ v_gate ++ v_after ++ v_flag ++ v_kept |}.
+     m4_out := m4_out m ++ v_alive ++ v_sig ++ v_new ++ v_gate ++ v_after ++ v_flag ++ v_kept ++ v_proof |}.
 
 Definition mon_c14 (sc : scen) : list viol :=
   let steps := index_from 0 (sc_steps sc) in
@@ -268,12 +280,12 @@ Definition towers_upto (n : N) : list N := map fst (index_from 0 (repeat tt (N.t
 (* tower script state, per tower: (up, add class, register class) and since when (ms) it has been accepting / failing hard *)
 Record tw := mk_tw { tw_up : bool; tw_add : N; tw_reg : N; tw_acc : option N; tw_bad : option N }.
 Definition hard_fail_class (c : N) : bool :=
-  N.eqb c A_BADSIG || (N.leb 5 c && N.leb c 10).     (* undecodable signature, garbage, wrong shape, empty, huge, reset, wrong types (11 = a held acceptance) *)
+  N.eqb c A_BADSIG || (N.leb 5 c && N.leb c 10) || N.eqb c 12.   (* undecodable signature, garbage, wrong shape, empty, huge, reset, wrong types, multi-byte garbage (11 = a held acceptance) *)
 Definition tw_accepting (w : tw) : bool := tw_up w && N.eqb (tw_add w) A_ACCEPT && N.eqb (tw_reg w) R_GOOD.
 (* the tower answers add_appointment with `subscription error` and its register endpoint fails TRANSIENTLY (garbage, API
    error): a retry loop can neither renew nor deliver, it must give up like against a tower that is down *)
 Definition tw_subfail (w : tw) : bool :=
-  tw_up w && N.eqb (tw_add w) A_SUBERR && (N.eqb (tw_reg w) R_GARBAGE || N.eqb (tw_reg w) R_APIERR).
+  tw_up w && N.eqb (tw_add w) A_SUBERR && (N.eqb (tw_reg w) R_GARBAGE || N.eqb (tw_reg w) R_APIERR || N.eqb (tw_reg w) 8).
 Definition tw_failing (w : tw) : bool := negb (tw_up w) || hard_fail_class (tw_add w) || tw_subfail w.
 Definition tw_retime (w : tw) (now : N) (force : bool) : tw :=
   {| tw_up := tw_up w; tw_add := tw_add w; tw_reg := tw_reg w;
